@@ -46,7 +46,7 @@ var optAlpha = map[string][]rune{
 	"csv":                {'a', ',', '"', '\r', '\n', 0x416},
 	"mustache":           {'a', '{', '}', '#', ' ', '\n', '"', 0x1F600},
 	"generic-custom":     {'a', '=', ':', '<', '!', '-', '>', ' ', '\n'},
-	"generic-arrows":     {'a', 0x2192, 0x3000, 0x416, ' ', '\'', '#'},
+	"generic-arrows":     {'a', 0x2192, 0x3000, 0x416, ' ', '\'', '#', 0xa0, 0x2003},
 	"csv-wide":           {'a', 0xff1b, 0xab, '"', '\r', '\n', 0x416},
 	"generic-quotes":     {'a', 0xab, 0x201c, '\'', ' ', '#', '\n'},
 	"generic-unknownsym": {'a', '?', '!', ' ', 0xffff, '#', '\n'},
@@ -61,7 +61,7 @@ var optSnippets = map[string][]string{
 		"😀/**/ 😀 1", " /**/ ", "x /* unterminated"},
 	"csv":                {"a,b\r\n\"c,d\",\"e\"\"f\"\n", "\"x\"\r\"y\"\n\r\"\"", "a,\"multi\nline\",b\rc"},
 	"generic-custom":     {"a =:= b\n=: c", "<!-- x\n--> !>>> !>>\n!"},
-	"generic-arrows":     {"страна a → b\u3000\u3000x→→y ← # c\n→", "日本\u3000語 → 'q→' 12  "},
+	"generic-arrows":     {"страна a → b\u3000\u3000x→→y ← # c\n→", "日本\u3000語 → 'q→' 12  ", "a\u00a0\u2003 b\u3000\u00a0# c\u2003\n\u2003"},
 	"csv-wide":           {"日本；語；«q；»»r«\r\nстрана；\"x\"\"y\"；；\n", "a,b；c\r«open；", "«a««b«；«««"},
 	"generic-quotes":     {"a «b  c« “d“ 'e' \"f\" # c\n«open", "x«« ““y «'« “\"“ \uffff"},
 	"generic-unknownsym": {"a ? b ?! c !? <= ? # c\n?", "??!?\uffff?# c\n? ?"},
@@ -78,7 +78,7 @@ var optLexemes = map[string][]string{
 	"csv":                {"a", ",", "\"q\"\"r\"", "\r\n", "\n", "😀", "\"\""},
 	"mustache":           {"text", "{{", "}}", "{{{", "}}}", "a", " ", "\n", "😀", "'q'", "#", "\"}}\"", "'}}}'", "'{{'"},
 	"generic-custom":     {"a", "=:=", "=:", " ", "\n", "😀", "<!--", "# c"},
-	"generic-arrows":     {"a", "→", "→←", "\u3000", " ", "ж", "# c", "'q→'", "😀"},
+	"generic-arrows":     {"a", "→", "→←", "\u3000", " ", "ж", "# c", "'q→'", "😀", "\u00a0", "\u2003\u3000"},
 	"csv-wide":           {"a", "；", "«q««r«", "\"q\"", "\r\n", "ж", "««", "😀"},
 	"generic-quotes":     {"a", "«q r«", "“q“", "'q'", " ", "# c", "😀", "\n"},
 	"generic-unknownsym": {"a", "?", "?!", "!", " ", "# c", "\uffff", "\n"},
